@@ -108,6 +108,19 @@ def generate(rng, tier, focus):
             continue
         reacts = [(rng.randrange(3), ["unsub-self"])] if rng.random() < 0.2 else []
         cases.append((scn(srcs=[src([s0], rng.random() < 0.3)], conns=[[kind, ["cold", 0]]], handles=1, script_=[sub(0, p, *reacts)]), {"k": "conn-cold"}))
+    # dematerialize fed with reified terminals that are NOT the source's last act (hand-built material streams)
+    for _ in range(1200 if thorough else 200):
+        def mat():
+            return rng.choice([["mn", rng.choice(items)], ["mn", rng.choice(items)], ["mc"], ["me", 4]])
+        ms = [n(mat()) for _ in range(rng.randrange(1, 6))]
+        if rng.random() < 0.5:
+            p = scen.rand_chain(rng, op("dematerialize", [], ["hot", 0]), rng.choice([0, 0, 1]))
+            acts = [sub(0, p)] + [["emit", 0, m] for m in ms] + [["emit", 0, rng.choice([n(["mn", 9]), C])]]
+            cases.append((scn(subjects=[["subject"]], handles=1, script_=acts), {"k": "demat-hot"}))
+        else:
+            p = scen.rand_chain(rng, op("dematerialize", [], ["cold", 0]), rng.choice([0, 0, 1]))
+            s0 = ms + rng.choice([[C], [], [n(["mn", 9]), C]])
+            cases.append((scn(srcs=[src([s0], True)], handles=1, script_=[sub(0, p)]), {"k": "demat-cold"}))
     # unbounded producers
     for _ in range(400 if thorough else 80):
         p = ["repeat", rng.choice(items)]
@@ -137,12 +150,15 @@ def generate(rng, tier, focus):
             p = scen.multi_op(rng, nm, p, [["hot", 1]])
         p = scen.rand_chain(rng, p, rng.choice([0, 0, 1]))
         acts = [sub(0, p)]
+        if rng.random() < 0.4:      # the subjects already have a history when the subscriber arrives (Behavior / Replay hand it over)
+            acts = [["emit", rng.randrange(2), n(rng.choice(items))] for _ in range(rng.randrange(1, 4))] + acts
         if rng.random() < 0.3:
             acts.append(sub(1, scen.rand_chain(rng, ["hot", rng.randrange(2)], rng.choice([0, 1]))))
         for _ in range(rng.randrange(2, 8)):
             acts.append(["emit", rng.randrange(2), rng.choice([n(1), n(2), n(3), n(2), C, e(3)])])
         if rng.random() < 0.5:
-            acts.insert(rng.randrange(1, len(acts) + 1), ["unsub", 0])
+            first_sub = [i for i, a in enumerate(acts) if a[0] == "sub"][0]
+            acts.insert(rng.randrange(first_sub + 1, len(acts) + 1), ["unsub", 0])
         if rng.random() < 0.3:
             acts.append(["unsub", 1])
         s1 = scen.script([rng.choice(items) for _ in range(rng.randrange(0, 4))], rng.choice(["c", ("e", 7), "s"]))
